@@ -69,11 +69,16 @@ def step(ad: SubtrajAdapter, op, args, exp, pre, post):
     if op == "Add":
         end, ep, t = args
         if ad.mt is not None:
-            k = ad.foreign
-            ad.foreign += 1
-            ad.mt.select_task(1)
-            ad.mt.add_sample(**bufkit.st_values(500 + k // 3, k % 3, "term" if k % 3 == 2 else "cont"))
-            ad.mt.select_task(0)
+            # every other addition to task 0 is preceded by a step of the unrelated stream of task 1 (select 1, add,
+            # select 0); the additions in between rely on the selection made earlier - as the multi-task schedulers
+            # do, which select once per block and then add and sample interleaved
+            ad.nadds = getattr(ad, "nadds", 0) + 1
+            if ad.nadds % 2 == 1:
+                k = ad.foreign
+                ad.foreign += 1
+                ad.mt.select_task(1)
+                ad.mt.add_sample(**bufkit.st_values(500 + k // 3, k % 3, "term" if k % 3 == 2 else "cont"))
+                ad.mt.select_task(0)
             ad.mt.add_sample(**bufkit.st_values(ep, t, end))
             want = ad.foreign + ad.foreign // 3
             if len(ad.mt.buffers[1]) != min(want, ad.mt.buffers[1].buffer_size):
@@ -130,6 +135,13 @@ def real_rng_windows(ad, model_state, seed, b=16, live=False):
     buf = ad.buf if live else copy.deepcopy(ad.buf)
     rng = np.random.default_rng(seed)
     starts = [i for i, m in enumerate(model_state["mask"]) if m == 1]
+    if live and ad.mt is not None:
+        # through the wrapper, as the learners sample: whichever task is drawn, sampling is an observer
+        for _ in range(2):
+            try:
+                ad.mt.sample_batch(2, 1, True, rng)
+            except Exception:  # the drawn task may have no admissible start yet
+                pass
     if not starts:
         return
     batch = buf.sample_batch(b, ad.h, True, rng)
